@@ -349,6 +349,11 @@ func (s *socket) MaybeUpgrade(transport transports.Transport) {
 
 	// we force a polling cycle to ensure a fast upgrade
 	check = func() {
+		// same lock as flush(): testing Writable() and handing packets to the transport must be
+		// one step, otherwise flush and this tick both write to the same pending poll
+		s.flushMu.Lock()
+		defer s.flushMu.Unlock()
+
 		if transports.POLLING == s.Transport().Name() && s.Transport().Writable() {
 			socket_log.Debug("writing a noop packet to polling for fast upgrade")
 			s.Transport().Send([]*packet.Packet{{Type: packet.NOOP}})
